@@ -728,7 +728,11 @@ class SymReal:
     def log10(s):
         if bool(SymBool(s.t <= 0)):
             raise ValueError("math domain error")
-        return SymReal(uf("log10")(s.t))
+        # defined through the natural logarithm (with the float constant ln 10, as math.log(x, 10) computes it),
+        # so that log10(x), log(x, 10) and log(x) / log(10) are the same term
+        import math as _m
+
+        return SymReal(uf("log")(s.t)) / _m.log(10)
 
     def log1p(s):
         if bool(SymBool(s.t <= -1)):
